@@ -1,6 +1,6 @@
 (* C09 — rolling operations are per-group sliding-window reductions. *)
 From Coq Require Import List ZArith Bool.
-From GL Require Import Lib.Arr Lib.Keyed Model.Dom Model.Rolling Proofs.RowGeneric Proofs.RollingInv Proofs.CumSpec Proofs.RollSpec Proofs.RollExt Spec.RowSpec.
+From GL Require Import Lib.Arr Lib.Keyed Model.Dom Model.Rolling Proofs.RowGeneric Proofs.RollingInv Proofs.CumSpec Proofs.RollSpec Proofs.RollExt Spec.RowSpec Model.Reduce Proofs.GenTie Gen.TablesGen.
 Import ListNotations.
 Open Scope Z_scope.
 
@@ -134,6 +134,11 @@ Print Assumptions C09_rolling_max_min_is_window_int.
 Print Assumptions C09_rolling_sum_mean_is_window_float.
 Print Assumptions C09_rolling_sum_mean_is_window_int.
 Print Assumptions C09_shift_diff_is_spec.
+
+(* Tie B: which 1-D kernel each rolling operation dispatches to, on this run *)
+Theorem C09_dispatch_is_the_source's : gen_rolling_dispatch = rolling_dispatch.
+Proof. exact tie_rolling_dispatch. Qed.
+Print Assumptions C09_dispatch_is_the_source's.
 
 Example C09_example :
   (snd (sum_step (zops false 0) 3 2 false (run_sum (zops false 0) 3 2 false [5; 1; 2; 7]) (10, true)) = 19) /\
